@@ -320,6 +320,7 @@ func HMock(props ...string) *Harness {
 			"source package = model scope with 5 objects (two interfaces, a generic interface, an interface using a local type, a struct) whose names are symbolic and pairwise distinct",
 		},
 		Outside: []string{"more than 3 interface arguments", "names longer than the bound", "what text/template does with the data (L2)"},
+		Confirm: mockConfirm,
 	}
 	hh.Instances = func(env *Env) []Instance {
 		maxK, bound := 2, 6
